@@ -242,7 +242,13 @@ class Tree:
                     await ac.get_resource(RB, "boom_" + (path.replace(".", "_") or "root"))
                 elif k == "fail":
                     env.log("failing", path, phase)
-                    exc = (CompFail if st[1] == "E" else CompFail2)(f"{path}:{phase}")
+                    if st[1] == "G":
+                        # the component fails with an exception group holding exactly one exception
+                        exc: BaseException = ExceptionGroup(f"group {path}:{phase}", [CompFail(f"{path}:{phase}")])
+                    elif st[1] == "T":
+                        exc = TimeoutError(f"{path}:{phase}")  # the component's own operation timed out
+                    else:
+                        exc = (CompFail if st[1] == "E" else CompFail2)(f"{path}:{phase}")
                     self.raised.append(exc)
                     raise exc
                 elif k == "ctxprobe":
